@@ -22,13 +22,16 @@ import Grass.Value
   finite numbers given by their exact rational value; `±Infinity`/`NaN` indices answer
   `unsupported`.
 
-  Deviations of the code from the documentation carry one switch each (`Sw`):
-    K14a  `append` takes a map / argument list as ONE element        (list.rs:103)
-    K14b  `join` takes an argument list as ONE element               (list.rs:148, :153)
-    K14c  `nth`/`set-nth` compare `|n| > len` on the raw double, so an index that is an integer
-          only up to 1e-11 and lies just above `len` is rejected      (list.rs:22, :77)
-    K14d  `map.set` with fewer than three arguments does not fail: the key is read from the
-          already consumed slot 0 and becomes `null`                 (map.rs:169–180)
+  Four deviations of the code from the documentation were found by this check and have since been
+  repaired in /repo (commits 6e994a1, 30ed358, ca51d14, 1b37b59); each keeps its switch (`Sw`,
+  `true` = documented = the code as it stands, `false` = the code before the repair):
+    K14a  `append` took a map / argument list as ONE element          (list.rs:103)
+    K14b  `join` took an argument list as ONE element                 (list.rs:148, :153)
+    K14c  `nth`/`set-nth` compared `|n| > len` on the raw double (and `nth` did so before the integer
+          check), so an index that is an integer only up to 1e-11 and lies just above `len` was
+          rejected                                                      (list.rs:22, :77)
+    K14d  `map.set` with fewer than three arguments did not fail: the key was read from the
+          already consumed slot 0 and became `null`                   (map.rs:169–180)
   Not settled by the documentation and therefore answered `unsupported`: `map.deep-remove`
   whose last intermediate key is missing (the code inserts `key: null`), `string.split` with an
   empty string or an empty separator.
@@ -40,7 +43,7 @@ open Grass.Value
 inductive Err where
   | missingArg | tooManyArgs | notNumber | notString | notMap
   | indexZero | indexRange | notInt | hasUnits | badSeparator | limitRange
-  | noKey | tooFewElems
+  | noKey | noValue | tooFewElems
   | unsupported
   deriving DecidableEq, Repr, Inhabited
 
@@ -49,9 +52,10 @@ def Err.name : Err → String
   | .notString => "not-string" | .notMap => "not-map" | .indexZero => "index-zero"
   | .indexRange => "index-range" | .notInt => "not-int" | .hasUnits => "has-units"
   | .badSeparator => "bad-separator" | .limitRange => "limit-range" | .noKey => "no-key"
+  | .noValue => "no-value"
   | .tooFewElems => "too-few-elems" | .unsupported => "unsupported"
 
-/-- One switch per known deviation; `true` = the documented behaviour. -/
+/-- One switch per deviation found; `true` = the documented behaviour (= /repo since the repairs). -/
 structure Sw where
   /-- K14a -/
   appendAsList : Bool
@@ -65,10 +69,12 @@ structure Sw where
   eq : Grass.Value.Sw
   deriving DecidableEq, Repr, Inhabited
 
-/-- /repo as it stands -/
-def Sw.now : Sw := ⟨false, false, false, false, Grass.Value.Sw.now⟩
+/-- /repo as it stands (K14a–K14d repaired) -/
+def Sw.now : Sw := ⟨true, true, true, true, Grass.Value.Sw.now⟩
 /-- what the documentation demands -/
 def Sw.spec : Sw := ⟨true, true, true, true, Grass.Value.Sw.spec⟩
+/-- /repo before the repairs of K14a–K14d (and of C09's K1, K2, K4) -/
+def Sw.beforeFix : Sw := ⟨false, false, false, false, Grass.Value.Sw.beforeFix⟩
 
 abbrev R := Except Err Value
 
@@ -93,10 +99,17 @@ def tooBig (byInt : Bool) (q : Rat) (len : Nat) : Bool :=
   else decide ((len : Rat) < q.abs)
 
 /-- `nth` (list.rs:18–42): 0-based position selected by index `q` in a list of `len` elements.
-    Order of the checks: zero, range, integer. -/
+    Order of the checks: zero, integer, range (on the integer).  Before the repair of K14c:
+    zero, range (on the raw value), integer. -/
 def nthIndex (sw : Sw) (len : Nat) (q : Rat) : Except Err Nat :=
   if isZero q then .error .indexZero
-  else if tooBig sw.rangeByInt q len then .error .indexRange
+  else if sw.rangeByInt then
+    match asInt q with
+    | none => .error .notInt
+    | some i =>
+      if len < i.natAbs then .error .indexRange
+      else .ok (if 0 < q then i.toNat - 1 else len - i.natAbs)
+  else if (len : Rat) < q.abs then .error .indexRange
   else
     match asInt q with
     | none => .error .notInt
@@ -398,18 +411,19 @@ def setNested (sw : Sw) : List Value → VPairs → Value → Value → VPairs
   | [], m, key, val => insert sw.eq m key val
   | k :: ks, m, key, val => insert sw.eq m k (.map (setNested sw ks (childMap sw m k) key val))
 
-/-- `map.set` (map.rs:168).  As found, the positions of `$key` and `$value` are computed with
-    saturating subtraction and slot 0 has already been replaced by the `null` gravestone. -/
+/-- `map.set` (map.rs:168): after the map has been checked, no further argument is "Expected $args to
+    contain a key.", one is "… a value.".  Before the repair of K14d the positions of `$key` and
+    `$value` were computed with saturating subtraction and slot 0 had already been replaced by the
+    `null` gravestone. -/
 def mapSetF (sw : Sw) : List Value → R
   | [] => .error .missingArg
   | m :: rest =>
-    if sw.setArity && rest.length < 2 then .error .missingArg else
     match assertMap m with
     | .error e => .error e
     | .ok a =>
       match rest with
-      | [] => .ok (.map (insert sw.eq a .null .null))
-      | [v] => .ok (.map (insert sw.eq a .null v))
+      | [] => if sw.setArity then .error .noKey else .ok (.map (insert sw.eq a .null .null))
+      | [v] => if sw.setArity then .error .noValue else .ok (.map (insert sw.eq a .null v))
       | _ =>
         let val := rest.getLast?.getD .null
         let key := rest.dropLast.getLast?.getD .null
@@ -869,7 +883,8 @@ def lawDeepMergeGet (hasB getA getB sub getR : Value) : Bool :=
 open Grass.Proto
 
 def parseSw? (s : String) : Option Sw :=
-  if s == "1" then some .now else if s == "0" then some .spec else none
+  if s == "now" then some .now else if s == "spec" then some .spec
+  else if s == "beforefix" then some .beforeFix else none
 
 def errStr (e : Err) : String :=
   match e with
@@ -886,7 +901,7 @@ def optSep? (s : String) : Option (Option Sep) :=
   if s == "none" then some none else (parseSep? s).map some
 
 def handle : List String → String
-  -- call <asFound:0|1> <fname> <k> <k values> → ok <value> | err <class> | unsupported
+  -- call <now|spec|beforefix> <fname> <k> <k values> → ok <value> | err <class> | unsupported
   | "call" :: af :: f :: k :: r =>
     match parseSw? af, k.toNat? with
     | some sw, some k =>
